@@ -34,16 +34,19 @@ LateralStressFree(r) == \A s \in 1..Len(r.P) : \A n \in 1..Len(r.free) : Abs(r.P
 Reaction(r) == \A s \in 1..Len(r.P) : Abs(r.y[s] - (r.P[s][r.axis * 4 - 3] * r.A16) \div 16) <= r.ptol * 4
 \* material-level curve (ViewMaterial) agrees with the same analytic stress at the same stretch
 CurveAgreesWithView(r) == \A s \in 1..Len(r.view) : Abs(r.view[s] - r.P[s][r.axis * 4 - 3]) <= r.ptol * 4
+\* material-level uniaxial / planar / biaxial curves (compressible view: lateral stretches from a root solve) agree with the
+\* stress of a direct material call at the deformation with independently solved lateral stretches
+ViewCurveAgrees(r) == Len(r.view) = Len(r.ref) /\ \A s \in 1..Len(r.view) : Abs(r.view[s] - r.ref[s]) <= r.ptol
 \* the final state is independent of the subdivision of the ramp
 RampIndependence(r) == \A a, b \in 1..Len(r.finals) : \A n \in 1..Len(r.finals[a]) : Abs(r.finals[a][n] - r.finals[b][n]) <= r.tol
 
 Clauses(r) == CASE r.kind = "patch" -> {"Affine", "UniformF", "IterationsReasonable"}
                 [] r.kind = "curve" -> {"HomogeneousF", "StretchApplied", "LateralStressFree", "Reaction"} \cup (IF Len(r.view) > 0 THEN {"CurveAgreesWithView"} ELSE {})
-                [] r.kind = "ramp" -> {"RampIndependence"}
+                [] r.kind = "ramp" -> {"RampIndependence"} [] r.kind = "view" -> {"ViewCurveAgrees"}
 Holds(c, r) == CASE c = "Affine" -> Affine(r) [] c = "UniformF" -> UniformF(r) [] c = "IterationsReasonable" -> IterationsReasonable(r)
                  [] c = "HomogeneousF" -> HomogeneousF(r) [] c = "StretchApplied" -> StretchApplied(r)
                  [] c = "LateralStressFree" -> LateralStressFree(r) [] c = "Reaction" -> Reaction(r)
-                 [] c = "CurveAgreesWithView" -> CurveAgreesWithView(r) [] c = "RampIndependence" -> RampIndependence(r)
+                 [] c = "CurveAgreesWithView" -> CurveAgreesWithView(r) [] c = "RampIndependence" -> RampIndependence(r) [] c = "ViewCurveAgrees" -> ViewCurveAgrees(r)
 Applicable(r) == Clauses(r)
 Failing(r) == {c \in Clauses(r) : ~Holds(c, r)}
 \* reference: H = ((1/8, 1/16), (0, -1/8)), point X = (1/2, 3/4): u = (1/16 + 3/64, -3/32)
